@@ -278,13 +278,15 @@ def run(spec, mode='sync', rec=None, chooser=None, keep_session=False, **core_kw
             lg.removeHandler(_FORMAT_ALL)
             lg.propagate = old_prop
     seed = spec.get('seed', 0)
-    if spec.get('ambient', True) and ('rtype' not in spec or 'debug_log' not in spec or 'boundary' not in spec):
+    if spec.get('ambient', True) and ('rtype' not in spec or 'debug_log' not in spec or 'boundary' not in spec or 'loop_per_call' not in spec):
         # ambient variation of the environment, derived from the seed unless the spec pins it: the container type bulk_read hands out
         # and whether the application runs the library's loggers at DEBUG.  Neither may change any observable result.
         h = (seed * 2654435761 + 97 * len(spec.get('ops', []))) & 0xFFFFFFFF
         amb = dict(spec, ambient=False)
         amb.setdefault('rtype', [None, 'bytearray', 'memoryview', 'array'][(h >> 5) % 4])
         amb.setdefault('debug_log', (h >> 9) % 3 == 0)
+        if not any(('hold' in op_) or ('take' in op_) or op_.get('api') == 'resume' for op_ in spec.get('ops', [])):
+            amb.setdefault('loop_per_call', (h >> 17) % 3 == 0)      # async: one event loop per public call (asyncio.run() each time)
         if spec.get('frag', 'whole') == 'whole' and not spec.get('mangle'):
             amb.setdefault('boundary', 'usb' if (h >> 13) % 4 == 0 else None)      # a transport that keeps transfer boundaries, as USB bulk does
         return run(amb, mode, rec, chooser, keep_session, **core_kw)
@@ -308,6 +310,7 @@ def run(spec, mode='sync', rec=None, chooser=None, keep_session=False, **core_kw
             r = random.Random(seed ^ 0xc2b2ae35)
             kw['wcap'] = (lambda n: r.randint(1, n)) if w == 'random' else (lambda n: max(1, min(n, w)))
         s = env.Session(mode, dev, **kw)
+        s.loop_per_call = bool(spec.get('loop_per_call')) and mode == 'async'
         rr.sess = s
         if spec.get('mangle'):
             # the n-th WRITE of the device is damaged on the wire: dict(nth=, kind='check0' | 'check+1' | 'flip')
